@@ -113,6 +113,18 @@ theorem bag_stamp_exact_of_coarse (m e : ℤ) (hm : 2 ^ 52 ≤ m) (hm' : m < 2 ^
       bagJoin ⌊(m : ℚ) * (2 : ℚ) ^ e⌋ ns = some ((m : ℚ) * (2 : ℚ) ^ e) :=
   F64.bag_exact_of_coarse m e hm hm' he1 he2 h31 hgap
 
+/-- The literal clause "timestamps to within one nanosecond" does **not** hold for all stamps:
+for `x = 10606899.173131479` (a binary64 value in `[2²³, 2²⁴)` s, spacing 2⁻²⁹ s ≈ 1.86 ns) the
+`floor` in `nanosec = int((stamp − sec)·1e9)` loses 0.52 ns and the reassembled sum rounds to the
+neighbouring double: `x' = x − 2⁻²⁹`, 1.86 ns away (within the proved 2 ns bound). -/
+theorem bag_stamp_1ns_counterexample :
+    IsF64 (5694535632571143 / 536870912) ∧
+    bagSplit (5694535632571143 / 536870912) = some (10606899, 173131478) ∧
+    bagJoin 10606899 173131478 = some (2847267816285571 / 268435456) ∧
+    (1 : ℚ) / 10 ^ 9 < |(2847267816285571 / 268435456 : ℚ) - 5694535632571143 / 536870912| := by
+  refine ⟨⟨5694535632571143, -29, by norm_num, by norm_num, by norm_num, by norm_num⟩,
+    by decide +kernel, by decide +kernel, by norm_num⟩
+
 /-- **DataFrame.** With the column table `trajectory_to_df` uses and the column names
 `df_to_trajectory` selects (both regenerated from pandas_bridge.py on every run),
 `df_to_trajectory(trajectory_to_df(t)) = t` for every trajectory and every path: the column ↔ slot
